@@ -114,3 +114,28 @@ package eni
 //@ # ---- only what the cloud confirmed as unassigned leaves the pool's tracking ----
 //@ guard call Set.Delete#1 in factoryDisposeWorker: c07u4ok && arg0 == c07u4
 //@ guard call Set.Delete#2 in factoryDisposeWorker: c07u6ok && arg0 == c07u6
+
+//@ # ---- factoryAllocWorker: what the cloud handed over together with an error is kept for hand-back, never dropped ----
+//@ ghost c07ret4 []netip.Addr
+//@ ghost c07q4 bool = false
+//@ ghost c07ret6 []netip.Addr
+//@ ghost c07q6 bool = false
+//@ ghost c07eni ref
+//@ ghost c07enierr bool = false
+//@ func Local.factoryAllocWorker
+//@   requires l != nil && l.cond != nil && l.factory != nil
+//@   at call AssignNIPv4: ghost c07ret4 = result0
+//@   at call AssignNIPv4: ghost c07q4 = false
+//@   at call AssignNIPv6: ghost c07ret6 = result0
+//@   at call AssignNIPv6: ghost c07q6 = false
+//@   at call Set.PutDeleting#1: ghost c07q4 = (arg0 == c07ret4)
+//@   at call Set.PutDeleting#2: ghost c07q6 = (arg0 == c07ret6)
+//@   at call CreateNetworkInterface: ghost c07eni = result0
+//@   at call CreateNetworkInterface: ghost c07enierr = (result3 != nil)
+//@   at call setupENICompartment: ghost c07enierr = (c07enierr || result != nil)
+//@ # on the error path of an assign call the returned addresses have been queued for unassignment before the error is handled
+//@ guard call Local.errorHandleLocked#2 in factoryAllocWorker: c07q4
+//@ guard call Local.errorHandleLocked#3 in factoryAllocWorker: c07q6
+//@ # an interface returned together with an error stays tracked and is marked for deletion
+//@ guard store Local.eni in factoryAllocWorker: value == c07eni
+//@ guard store Local.status in factoryAllocWorker: value != 0 || !c07enierr || c07eni == nil
